@@ -1,11 +1,38 @@
 """EXT5  (extension, not a listed property) server life cycle: Shutdown waits for the work in flight,
 bounded by its context, and nothing is handled after it has returned."""
 import collections
+import glob
 import json
+import os
 import re
 from vlib import Check, read_ndjson, main, Undecided
 
 LANES = ["udp", "tcp", "tcp-pipe", "dot", "dot-pipe", "doh-h2", "doh-h3", "doh-mixed", "doq", "dnscrypt-udp", "dnscrypt-tcp"]
+
+
+def race_reports(scratch):
+    """Reports of the Go race detector (GORACE=log_path=<scratch>/race): for each one the function at the
+    top of the two conflicting accesses, classified as repo / dep / harness."""
+    res = []
+    for fn in sorted(glob.glob(os.path.join(scratch, "race.*"))):
+        for block in open(fn, errors="replace").read().split("=================="):
+            if "WARNING: DATA RACE" not in block:
+                continue
+            tops = []
+            # the two access stacks come first: "<Read|Write> at ... by goroutine" and "Previous <read|write> at"
+            for m in re.finditer(r"^(?:Previous )?(?:[Aa]tomic )?(?:[Rr]ead|[Ww]rite) at .*?\n((?:  .*\n      .*\n)+)", block, re.M):
+                frames = re.findall(r"^  (\S.*?)\(\)\n      (\S+?):(\d+)", m.group(1), re.M)
+                for func, path, line in frames:
+                    if func.startswith(("runtime.", "sync.", "sync/atomic.", "internal/")):
+                        continue
+                    base = os.path.basename(path)
+                    kind = "harness" if base.startswith("zz_verif_") else (
+                        "repo" if "/internal/dnsserver/" in path and "/pkg/mod/" not in path else "dep")
+                    tops.append((kind, "%s (%s:%s)" % ("/".join(func.split("/")[-2:]), base, line)))
+                    break
+            if len(tops) >= 2:
+                res.append({"tops": tops[:2], "text": block.strip()})
+    return res
 
 
 def segments(ev):
@@ -96,10 +123,19 @@ def run(c: Check):
     env = {"VERIF_EXT5_REPS": 8 if th else 1, "VERIF_EXT5_MAXK": 5 if th else 3, "VERIF_EXT5_RACES": 4 if th else 2}
     out, _ = c.go_harness("internal/dnsserver", "^TestVerifEXT5$", files=["ext5_test.go"], env=env, timeout=1500)
     ev = read_ndjson(out)
+    races = []
     if th:
-        env2 = dict(env, VERIF_EXT5_REPS=3, VERIF_EXT5_MAXK=4)
-        out2, _ = c.go_harness("internal/dnsserver", "^TestVerifEXT5$", files=["ext5_test.go"], env=env2, race=True,
-                               timeout=1800)
+        env2 = dict(env, VERIF_EXT5_REPS=3, VERIF_EXT5_MAXK=4, GORACE="log_path=%s" % os.path.join(c.scratch, "race"))
+        try:
+            out2, _ = c.go_harness("internal/dnsserver", "^TestVerifEXT5$", files=["ext5_test.go"], env=env2,
+                                   race=True, timeout=1800)
+        except Undecided as e:
+            # the race detector fails the test binary; its reports are in the log files and the events
+            # recorded so far are still there: anything else is a failure of the machinery
+            races = race_reports(c.scratch)
+            out2 = os.path.join(c.scratch, "out%d.ndjson" % c._n_go)
+            if not races or not os.path.exists(out2) or "race detected during execution" not in str(e):
+                raise
         ev += read_ndjson(out2)
     segs = segments(ev)
     fails = c.validate_segments("TraceLifecycle", "TraceLifecycle.cfg", ev, max_fail=16)
@@ -119,6 +155,23 @@ def run(c: Check):
             continue
         seen.add(key)
         c.violation(sig, desc, {"segment": sg, "offending_index": idx, "reason": reason})
+
+    # ---- data races (thorough): WaitGroup.Add against WaitGroup.Wait and the like
+    seen_r = set()
+    for r in races:
+        kinds = {k for k, _ in r["tops"]}
+        where = " / ".join("%s" % f for _, f in r["tops"])
+        if where in seen_r:
+            continue
+        seen_r.add(where)
+        if "harness" in kinds:
+            raise Undecided("data race inside the harness itself: %s\n%s" % (where, r["text"][:3000]))
+        if kinds == {"repo"}:
+            c.violation({"kind": "DataRace", "where": where},
+                        "EXT5 data race between repository frames while a server is shut down under traffic "
+                        "(the WaitGroup that Shutdown waits for): %s" % where, {"report": r["text"][:6000]})
+        else:
+            c.notes.append("data race outside the repository (not judged): %s" % where)
 
     # ---- accounting, vacuity, observations
     per = collections.defaultdict(lambda: collections.Counter())
